@@ -85,10 +85,12 @@ def _round_region(res, k):
         x, m = res.ins[0][0], res.ins[0][1]; r = x - m * z3.ToReal(z3.ToInt(x / m)); return 2 * r > m
     x, m = (res.ins[0][0], res.ins[0][1]) if len(fn.ins) == 1 else (res.ins[0][k], res.ins[1][k])
     W = x.size(); signed = CT[fn.ins[0][0]][0] == 's'
+    # x mod m (floor remainder) > m/2, written with W-bit remainders of the operands the code itself divides (cheap for the solver)
     if signed:
-        X, M = z3.SignExt(2, x), z3.SignExt(2, m); r = z3.SRem(X, M); r = z3.If(r < 0, r + M, r)
+        M = z3.SignExt(2, m); rp = z3.SignExt(2, z3.SRem(x, m)); rn = M - 1 + z3.SignExt(2, z3.SRem(x + 1, m))
+        r = z3.If(x >= 0, rp, rn)
     else:
-        X, M = z3.ZeroExt(2, x), z3.ZeroExt(2, m); r = z3.URem(X, M)
+        M = z3.ZeroExt(2, m); r = z3.ZeroExt(2, z3.URem(x, m))
     return z3.UGT(r + r, M)
 REGIONS = {'rot_differs': _rot_region, 'round_upper_closer': _round_region}
 
@@ -167,18 +169,18 @@ def job_mult(t, f, L=0):
         S.check_fn(U, f + sfx, spec, pre, solver='portfolio', timeout=S.cap(150, 400), known=known, bounds='all x, all m > 0 with x +- m representable (%d bit)' % W, side=False)
     return run
 
-def nth_set_bit(x, nn):
-    """position of the nn-th (1-based) set bit counted from bit 0; -1 if fewer"""
-    W = x.size(); r = z3.BitVecVal(-1, 32)
-    for p in range(W - 1, -1, -1):
-        below = popcount(z3.Extract(p - 1, 0, x), 32) if p > 0 else z3.BitVecVal(0, 32)
-        r = z3.If(z3.And(bit(x, p) == 1, below == nn - 1), z3.BitVecVal(p, 32), r)
-    return r
+def nsb_goal(x, nn, r):
+    """r is the position of the nn-th (1-based) set bit of x counted from bit 0, or -1 if x has fewer than nn set bits"""
+    W = x.size(); rw = zx(r, W) if W >= 32 else z3.Extract(W - 1, 0, r)
+    below = x & ((z3.BitVecVal(1, W) << rw) - 1)
+    found = z3.And(r >= 0, r < W, z3.Extract(0, 0, z3.LShR(x, rw)) == 1, popcount(below, 32) == nn - 1)
+    return z3.If(popcount(x, 32) < nn, r == -1, found)
 def job_findnsb(t, L=0):
     c = ITYPES[t]; W = width(t); n = max(L, 1); sfx = '_%s' % t if L == 0 else '_v%d_%s' % (L, t)
     def run(S):
         pre = lambda i: [z3.And(k >= 1, k <= W) for k in i[1]]
-        S.check_fn(U, 'findNSB' + sfx, lambda i, o: [('c%d' % k, o[0][k] == nth_set_bit(i[0][k], i[1][k])) for k in range(n)], pre, unwind=9, bounds='all x, 1 <= n <= %d' % W)
+        S.check_fn(U, 'findNSB' + sfx, lambda i, o: [('c%d' % k, nsb_goal(i[0][k], i[1][k], o[0][k])) for k in range(n)], pre, unwind=9, bounds='all x, 1 <= n <= %d' % W,
+                   timeout=S.cap(60, 180) if W < 64 else 1500)
     return run
 
 def job_bitfield(t):
@@ -258,8 +260,9 @@ def job_gtx(S):
     S.check_fn(U, 'usqrt', sq, lambda i: [z3.ULT(i[0][0], 1 << 10)], unwind=12, solver='portfolio', timeout=S.cap(200, 600), bounds='x < 2^10')
     S.check_fn(U, 'isqrt', sq, lambda i: [i[0][0] >= 0, i[0][0] < (1 << 10)], unwind=12, solver='portfolio', timeout=S.cap(200, 600), bounds='0 <= x < 2^10')
     def md(i, o):
-        x, y, r = sx(i[0][0], 34), sx(i[0][1], 34), sx(o[0][0], 34)
-        return [('range', z3.And(r >= 0, r < y)), ('congruent', z3.SRem(x - r, y) == 0)]
+        x, y, r = i[0][0], i[0][1], o[0][0]
+        t = z3.SRem(x, y)        # SMT-LIB truncated remainder; floor-mod for y > 0 adds y when it is negative
+        return [('floor-mod', r == z3.If(t < 0, t + y, t))]
     S.check_fn(U, 'imod', md, lambda i: [i[0][1] > 0, i[0][1] <= (1 << 30)], solver='portfolio', timeout=S.cap(200, 600), bounds='all x, 0 < y <= 2^30')
     S.check_fn(U, 'umod', lambda i, o: [('mod', o[0][0] == z3.URem(i[0][0], i[0][1]))], lambda i: [i[0][1] != 0], solver='portfolio', timeout=S.cap(200, 600), bounds='all x, y != 0')
     S.check_fn(U, 'nlz', lambda i, o: [('nlz', o[0][0] == 31 - highest_set(i[0][0], 32))], bounds='all x')
@@ -291,7 +294,7 @@ def jobs(tier):
     q = tier == 'quick'; J = []
     for t in (['i32', 'u32', 'u8', 'i64', 'u16'] if q else TYS):
         J.append(('pow2_' + t, job_pow2(t)))
-        J.append(('findNSB_' + t, job_findnsb(t)))
+        if not (q and width(t) == 64): J.append(('findNSB_' + t, job_findnsb(t)))      # 64-bit findNSB needs minutes: thorough tier only
         J.append(('bitfield_' + t, job_bitfield(t)))
     for t in (['i32', 'u32', 'u16', 'u64'] if q else TYS):
         for f in MUL: J.append(('%s_%s' % (f, t), job_mult(t, f)))
